@@ -246,6 +246,21 @@ Proof.
   intros Hcls fuel p e M H. destruct (runtime_matches_chia_all P F Hcls fuel p e M H) as [A B]. congruence.
 Qed.
 
+(* the form with the same flag record on both sides (F contains neither ENABLE_GC nor DISABLE_OP) *)
+Lemma minus_gc_disable_op_id F : f_enable_gc F = false -> f_disable_op F = false -> minus_gc_disable_op F = F.
+Proof. destruct F. cbn. intros -> ->. reflexivity. Qed.
+
+Theorem runtime_matches_chia_same P F : f_enable_gc F = false -> f_disable_op F = false ->
+  forall fuel p e M,
+  run_program (common_dialect P F) fuel p e M <> Err Unsupported ->
+  run_program (runtime_dialect P F) fuel p e M = run_program (common_dialect P F) fuel p e M /\
+  run_program (chia_dialect P F) fuel p e M = run_program (common_dialect P F) fuel p e M.
+Proof.
+  intros Hgc Hd fuel p e M H.
+  pose proof (runtime_matches_chia_all P F (or_introl Hd) fuel p e M H) as R.
+  rewrite (minus_gc_disable_op_id F Hgc Hd) in R. exact R.
+Qed.
+
 (* ---- RuntimeDialect F vs ChiaDialect (F minus ENABLE_GC), every F ---- *)
 Lemma sim_minus_gc F : flags_sim F (dialect_flags (minus_gc F)).
 Proof.
